@@ -10,9 +10,11 @@
 package main
 
 import (
+	"bufio"
 	"bytes"
 	"fmt"
 	"math/big"
+	"os"
 	"reflect"
 	"strings"
 
@@ -385,7 +387,8 @@ func errClass(err error) int64 {
 
 // ---- independent spec encoder (Solidity ABI), with a padding mask --------------
 // mask: 0 data, 1 padding the decoder is expected to tolerate, 2 padding it checks,
-// 3 structure (offset and length words).
+// 3 structure (offset and length words), 4 the upper 24 bytes of the offset word of a
+// dynamic T[k] (not read by the decoder: finding C51-offset-word-truncated).
 
 type part struct {
 	dyn   bool
@@ -416,7 +419,7 @@ func specTuple(ps []part) ([]byte, []byte) {
 			m := padMask(32, 0, 32, 3)
 			if p.faDyn {
 				for i := 0; i < 24; i++ {
-					m[i] = 1
+					m[i] = 4
 				}
 			}
 			hm = append(hm, m...)
@@ -575,12 +578,78 @@ func (e *env) tyRT() bool {
 	return true
 }
 
-func runDecode(e *env, data []byte, res *Result) (SL, bool) {
+// ---- oracle verdicts -----------------------------------------------------------
+//
+// The oracle is the property read strictly.  Deviations that are recorded as open
+// known findings get a stable prefix and are emitted only when their mechanism has
+// been verified on the case; anything else is a genuine failure.  A case with a
+// genuine failure lists it first, so the anchored known-finding patterns
+// ("^C51-...[^;]*$") can never match it.
+
+const (
+	kfZeroSize     = "C51-zero-size-static: Unpack(Pack(v)) fails for a type containing a static component of encoded size 0"
+	kfNonCanonical = "C51-noncanonical-layout-accepted: Unpack accepted an input whose offset/length words differ from those of its re-encoding"
+	kfOffsetTrunc  = "C51-offset-word-truncated: Unpack accepted a dynamic T[k] offset word with non-zero upper 24 bytes (only the last 8 bytes are read)"
+	kfIntWidth     = "C51-int-width-unchecked: a uintN/intN value outside its N-bit range (N not 8/16/32/64) was accepted by Unpack or packed by Pack"
+)
+
+var kfPriority = []string{kfZeroSize, kfNonCanonical, kfOffsetTrunc, kfIntWidth}
+
+type verdict struct {
+	genuine []string
+	known   map[string]bool
+}
+
+func (v *verdict) bad(f string, a ...interface{}) { v.genuine = append(v.genuine, fmt.Sprintf(f, a...)) }
+func (v *verdict) kf(m string) {
+	if v.known == nil {
+		v.known = map[string]bool{}
+	}
+	v.known[m] = true
+}
+
+// oracle renders the verdict: genuine failures first (then the known classes, for
+// information); with no genuine failure, the single highest-priority known class.
+func (v *verdict) oracle() string {
+	var ks []string
+	for _, m := range kfPriority {
+		if v.known[m] {
+			ks = append(ks, m)
+		}
+	}
+	if len(v.genuine) > 0 {
+		return strings.Join(append(v.genuine, ks...), "; ")
+	}
+	if len(ks) > 0 {
+		return ks[0]
+	}
+	return ""
+}
+
+// zeroSizeClass: the error classes a zero-size static component can cause
+// (toGoType "length insufficient", forEachUnpack "would go over slice boundary",
+// Unpack "empty string").
+func zeroSizeClass(c int64) bool { return c == 1 || c == 5 || c == 9 }
+
+// roundTrip checks Unpack(pb) == vals where pb = Pack(vals) succeeded.
+func (e *env) roundTrip(v *verdict, pb []byte, vals SL, what string) {
+	uv, ucls, upan := e.unpack(pb)
+	switch {
+	case upan != "":
+		v.bad("Unpack(Pack(%s)) panicked: %s", what, upan)
+	case ucls == 0 && String(uv) == String(vals):
+	case !e.tyRT() && zeroSizeClass(ucls):
+		v.kf(kfZeroSize)
+	default:
+		v.bad("Unpack(Pack(%s)) != %s (class %d)", what, what, ucls)
+	}
+}
+
+func runDecode(e *env, data []byte, res *Result, v *verdict) (SL, bool) {
 	vals, cls, pan := e.unpack(data)
-	var fails []string
 	second := Sx(L())
 	if pan != "" {
-		fails = append(fails, "Unpack panicked on arbitrary bytes: "+pan)
+		v.bad("Unpack panicked on arbitrary bytes: %s", pan)
 		res.Tags = append(res.Tags, "panic")
 	} else if cls != 0 {
 		res.Tags = append(res.Tags, fmt.Sprintf("err%d", cls))
@@ -590,43 +659,60 @@ func runDecode(e *env, data []byte, res *Result) (SL, bool) {
 		pb, pcls, ppan := e.pack(vals)
 		second = resSx(B(pb), pcls, ppan)
 		if ppan != "" || pcls != 0 {
-			fails = append(fails, fmt.Sprintf("Pack of decoded values failed (class %d %s)", pcls, ppan))
-		} else if e.tyRT() {
-			v2, c2, p2 := e.unpack(pb)
-			if p2 != "" || c2 != 0 || String(v2) != String(vals) {
-				fails = append(fails, fmt.Sprintf("Unpack(Pack(decoded)) != decoded (class %d %s)", c2, p2))
+			v.bad("Pack of decoded values failed (class %d %s)", pcls, ppan)
+		} else {
+			e.roundTrip(v, pb, vals, "decoded")
+			strict := e.allOK(vals, true)
+			if !strict {
+				// the only way a decoded value is not ABI-typed: an integer outside its declared width
+				if !e.allOK(vals, false) {
+					v.bad("Unpack returned a value outside the range of its Go type")
+				} else {
+					v.kf(kfIntWidth)
+					res.Tags = append(res.Tags, "kf-intwidth")
+				}
 			}
 			sb, mask := specArgs(e.ts, vals)
-			if e.allOK(vals, true) && !bytes.Equal(sb, pb) {
-				fails = append(fails, "Pack(decoded) differs from the ABI specification encoding")
+			if strict && !bytes.Equal(sb, pb) {
+				v.bad("Pack(decoded) differs from the ABI specification encoding")
 			}
-			// canonical region: if the input carries the canonical offset and length words
-			// (so the decoder read the canonical layout), the re-encoding must agree with the
-			// input everywhere except on padding the decoder tolerates
-			if len(mask) == len(pb) && len(data) >= len(pb) {
-				same := true
-				for i := range pb {
+			// canonical prefix: the accepted input must carry its own re-encoding as a prefix,
+			// up to padding the decoder is known to tolerate (mask 1)
+			if len(mask) == len(pb) {
+				layout := len(data) >= len(pb)
+				for i := 0; layout && i < len(pb); i++ {
 					if mask[i] == 3 && data[i] != pb[i] {
-						same = false
-						break
+						layout = false
 					}
 				}
-				if same {
+				if !layout {
+					v.kf(kfNonCanonical)
+					res.Tags = append(res.Tags, "kf-noncanonical")
+				} else {
 					res.Tags = append(res.Tags, "canonical-layout")
 					for i := range pb {
-						if mask[i] != 1 && data[i] != pb[i] {
-							fails = append(fails, fmt.Sprintf("accepted input differs from its re-encoding at byte %d outside tolerated padding", i))
+						if data[i] == pb[i] {
+							continue
+						}
+						switch mask[i] {
+						case 1:
+						case 4:
+							v.kf(kfOffsetTrunc)
+						default:
+							v.bad("accepted input with canonical offset/length words differs from its re-encoding at byte %d outside tolerated padding", i)
+						}
+						if mask[i] != 1 && mask[i] != 4 {
 							break
 						}
+					}
+					if v.known[kfOffsetTrunc] {
+						res.Tags = append(res.Tags, "kf-offsettrunc")
 					}
 				}
 			}
 		}
 	}
 	res.Obs = L(resSx(vals, cls, pan), second)
-	if len(fails) > 0 {
-		res.Oracle = strings.Join(fails, "; ")
-	}
 	return vals, pan == "" && cls == 0
 }
 
@@ -636,6 +722,7 @@ func run(c Sx) Result {
 		shape("case arity")
 	}
 	res := Result{}
+	v := &verdict{}
 	e := mkEnv(l[1])
 	if !e.tyRT() {
 		res.Tags = append(res.Tags, "zerosize")
@@ -651,17 +738,16 @@ func run(c Sx) Result {
 			}
 		}
 		wf, rt := e.allOK(vals, true), e.allOK(vals, false)
-		var fails []string
 		pb, pcls, ppan := e.pack(vals)
 		second := Sx(L())
 		if ppan != "" {
-			fails = append(fails, "Pack panicked: "+ppan)
+			v.bad("Pack panicked: %s", ppan)
 		}
 		sb, _ := specArgs(e.ts, vals)
 		if wf {
 			res.Tags = append(res.Tags, "wf")
 			if ppan == "" && (pcls != 0 || !bytes.Equal(pb, sb)) {
-				fails = append(fails, fmt.Sprintf("Pack of an ABI-typed value is not the specification encoding (class %d)", pcls))
+				v.bad("Pack of an ABI-typed value is not the specification encoding (class %d)", pcls)
 			}
 		} else if rt {
 			res.Tags = append(res.Tags, "wide")
@@ -669,18 +755,28 @@ func run(c Sx) Result {
 			res.Tags = append(res.Tags, "wrap")
 		}
 		if ppan == "" && pcls == 0 {
+			if !wf {
+				// an out-of-width integer in a *big.Int position was packed (possibly wrapped mod 2^256)
+				v.kf(kfIntWidth)
+				res.Tags = append(res.Tags, "kf-intwidth")
+			}
 			uv, ucls, upan := e.unpack(pb)
 			second = resSx(uv, ucls, upan)
-			if upan != "" {
-				fails = append(fails, "Unpack(Pack(v)) panicked: "+upan)
-			} else if rt && e.tyRT() {
-				if ucls != 0 || String(uv) != String(vals) {
-					fails = append(fails, fmt.Sprintf("Unpack(Pack(v)) != v (class %d)", ucls))
-				}
+			if rt {
+				e.roundTrip(v, pb, vals, "v")
 				res.NonTrivial = len(pb) >= 64
+			} else if upan != "" {
+				v.bad("Unpack(Pack(v)) panicked: %s", upan)
 			}
 		} else if pcls != 0 {
 			res.Tags = append(res.Tags, fmt.Sprintf("packerr%d", pcls))
+			if pcls != 20 || rt {
+				// the only legitimate Pack error here: a negative *big.Int in a uint position
+				v.bad("Pack failed (class %d) on a value of the reflect type GetType()", pcls)
+			}
+		}
+		if v.known[kfZeroSize] {
+			res.Tags = append(res.Tags, "kf-zerosize")
 		}
 		spec := Sx(L())
 		if wf {
@@ -688,14 +784,16 @@ func run(c Sx) Result {
 		}
 		res.Obs = L(resSx(B(pb), pcls, ppan), second, spec)
 		res.Tags = append(res.Tags, fmt.Sprintf("len%d", min(len(pb)/128, 9)))
-		if len(fails) > 0 {
-			res.Oracle = strings.Join(fails, "; ")
-		}
+		res.Oracle = v.oracle()
 		return res
 	case 1:
 		data := AsBytes(l[2])
-		_, ok := runDecode(e, data, &res)
+		_, ok := runDecode(e, data, &res, v)
 		res.NonTrivial = ok && len(data) >= 64 || (!ok && len(data) >= 32)
+		if v.known[kfZeroSize] {
+			res.Tags = append(res.Tags, "kf-zerosize")
+		}
+		res.Oracle = v.oracle()
 		return res
 	case 2:
 		if len(l) != 5 {
@@ -708,7 +806,7 @@ func run(c Sx) Result {
 		}
 		data := AsBytes(l[3])
 		flag := AsInt(l[4])
-		got, ok := runDecode(e, data, &res)
+		got, ok := runDecode(e, data, &res, v)
 		sb, mask := specArgs(e.ts, vals)
 		// the case is meaningful only if data differs from the spec encoding on mask positions of the flagged class
 		valid := len(data) == len(sb) && e.allOK(vals, true) && e.tyRT()
@@ -723,25 +821,82 @@ func run(c Sx) Result {
 				}
 			}
 		}
-		if valid && diff > 0 && res.Oracle == "" {
+		if valid && diff > 0 {
 			switch flag {
 			case 1:
 				res.Tags = append(res.Tags, "dirty-tolerated")
 				if !ok || String(got) != String(vals) {
-					res.Oracle = "dirty padding in a tolerated position changed the decoding"
+					v.bad("dirty padding in a tolerated position changed the decoding")
 				}
 			case 2:
 				res.Tags = append(res.Tags, "dirty-checked")
 				if ok {
-					res.Oracle = "dirty padding in a checked position (bool / native integer extension) was accepted"
+					v.bad("dirty padding in a checked position (bool / native integer extension) was accepted")
 				}
 			}
 			res.NonTrivial = true
 		}
+		res.Oracle = v.oracle()
 		return res
 	}
 	shape("unknown case kind")
 	return res
+}
+
+// oracleClass is what the shrinker must preserve: a genuine failure stays genuine,
+// a known finding stays in its class (hxlib's default predicate "any oracle failure"
+// could shrink a genuine violation into a known-finding case and hide it).
+func oracleClass(o string) string {
+	for _, m := range kfPriority {
+		if o == m {
+			return m[:strings.Index(m, ":")]
+		}
+	}
+	if o == "" {
+		return ""
+	}
+	return "genuine"
+}
+
+func runGuarded(c Sx) (o string, shapeErr bool) {
+	defer func() {
+		if r := recover(); r != nil {
+			msg := fmt.Sprint(r)
+			if strings.HasPrefix(msg, "hxlib:") || strings.HasPrefix(msg, "reflect") || strings.Contains(msg, "index out of range") {
+				shapeErr = true
+				return
+			}
+			o = "unexpected panic: " + msg
+		}
+	}()
+	return run(c).Oracle, false
+}
+
+func shrinkMain() {
+	sc := bufio.NewScanner(os.Stdin)
+	sc.Buffer(make([]byte, 1<<20), 1<<28)
+	out := bufio.NewWriter(os.Stdout)
+	defer out.Flush()
+	for sc.Scan() {
+		line := sc.Text()
+		if line == "" {
+			continue
+		}
+		c, err := Parse(line)
+		if err != nil {
+			fmt.Fprintln(out, line)
+			continue
+		}
+		o0, sh := runGuarded(c)
+		want := oracleClass(o0)
+		if !sh && want != "" {
+			c = Shrink(c, func(x Sx) bool {
+				o, sh := runGuarded(x)
+				return !sh && oracleClass(o) == want
+			})
+		}
+		fmt.Fprintln(out, String(c))
+	}
 }
 
 // ---- generation ----------------------------------------------------------------
@@ -1034,6 +1189,9 @@ func genCases(r *Rng, tier string, emit func(Sx)) {
 			vals := g.vals(ts, false)
 			base, mask := specArgs(ts, vals)
 			flag := 1 + r.Intn(2)
+			if r.Chance(1, 4) {
+				flag = 4 // upper bytes of a dynamic T[k] offset word: finding C51-offset-word-truncated
+			}
 			var pos []int
 			for j, m := range mask {
 				if int(m) == flag {
@@ -1053,12 +1211,20 @@ func genCases(r *Rng, tier string, emit func(Sx)) {
 				p := pos[r.Intn(len(pos))]
 				d[p] ^= byte(1 + r.Intn(255))
 			}
+			if flag == 4 {
+				emit(L(I(1), tsx, B(d)))
+				continue
+			}
 			emit(L(I(2), tsx, vals, B(d), I(int64(flag))))
 		}
 	}
 }
 
 func main() {
+	if len(os.Args) >= 2 && os.Args[1] == "shrink" {
+		shrinkMain()
+		return
+	}
 	Main(Family{
 		ID: "C51",
 		Rule: "random argument lists (0-3 arguments) of nested ABI types (depth <= 4; uint/int widths 8..256; bytes1..32; T[k] with k in 0..3; tuples of 0..4 fields) with random values built by reflection from Type.GetType(): ABI-typed values, and values outside the declared width in *big.Int positions; valid encodings (from the harness's own specification encoder) mutated by byte replacement, offset/length word corruption, truncation, extension, dirty high/low padding, word swaps; arbitrary byte strings; encodings with only padding bytes dirtied, by class (tolerated / checked). Non-trivial: a round trip evaluated on an encoding of >= 64 bytes, a decode of >= 64 bytes that succeeded or of >= 32 bytes that failed, or a dirty-padding case whose expectation was evaluated; distinct = distinct case line.",
